@@ -12,7 +12,7 @@ use std::sync::{Arc, Mutex};
 
 pub struct IndexThreads;
 const P: &str = "C24";
-const N_FIX: usize = 9;
+const N_FIX: usize = 10;
 
 #[derive(Clone, Debug, Serialize, Deserialize)]
 pub struct Workload {
@@ -35,7 +35,7 @@ for i in $(seq 1 40); do echo "top $i" > top-$i; done
 chmod +x top-1 a/file-1.txt
 ln -s top-2 link-1
 git add -A; git commit -q -m base
-save() { cp .git/index "../idx-$1"; git ls-files --stage > "../ls-$1.txt"; }
+save() { cp .git/index "../idx-$1"; git ls-files --stage > "../ls-$1.txt"; git ls-files --resolve-undo > "../ru-$1.txt"; }
 # 0: v2, no threads
 git config index.threads 1; git config index.version 2; git update-index --index-version 2; git update-index --refresh; save 0
 # 1: v2 with EOIE + IEOT (4 blocks)
@@ -59,6 +59,13 @@ save 6
 echo resolved > a/file-3.txt; git add a/file-3.txt; git update-index --index-version 4; save 7
 # 8: many small blocks: threads 16
 git config index.threads 16; git update-index --index-version 2; touch top-7; git update-index --refresh; save 8
+# 9: resolved conflicts whose resolve-undo records lack stages: both added, deleted by us, deleted by them, plus a full one
+git config index.threads 4
+git checkout -q -b side2; echo side > both-added; echo side > top-9; git rm -q top-10; echo side > top-11; echo side > top-12; git add -A; git commit -q -m side2
+git checkout -q master 2>/dev/null || git checkout -q main; echo main > both-added; git rm -q top-9; echo main > top-10; echo main > top-11; git add -A; git commit -q -m main2
+git merge side2 > /dev/null 2>&1 || true
+echo r > both-added; git add both-added; git rm -q top-9 2>/dev/null || true; echo r > top-10; git add top-10; echo r > top-11; git add top-11
+save 9
 "#;
 
 fn dump(s: &gix_index::State) -> Vec<String> {
@@ -168,6 +175,17 @@ impl Scenario for IndexThreads {
                         if git != ours {
                             let i = git.iter().zip(ours.iter()).position(|(a, b)| a != b).unwrap_or(git.len().min(ours.len()));
                             rep.violate(P, format!("index differs-from-git-ls-files {shape}"), format!("{} entries vs git's {}; first difference at {i}: ours {:?} git {:?}", ours.len(), git.len(), ours.get(i), git.get(i)));
+                        }
+                        // git's view of the resolve-undo extension. Its records are private in gix-index (no accessor, no Debug):
+                        // what can be observed is whether the extension decoded and how many paths it holds.
+                        let ru = std::fs::read_to_string(ctx.worker_dir.join(format!("ru-{}.txt", w.fixture))).unwrap_or_default();
+                        let git_paths: std::collections::BTreeSet<&str> = ru.lines().filter_map(|l| l.split_once('\t').map(|x| x.1)).collect();
+                        let ours = t.iter().find_map(|l| l.strip_prefix("resolve_undo=")).unwrap_or("None").to_string();
+                        let want = if git_paths.is_empty() { "None".to_string() } else { format!("Some({})", git_paths.len()) };
+                        if ours != want {
+                            rep.violate(P, format!("index resolve-undo-differs-from-git {shape}"), format!("git ls-files --resolve-undo lists {} paths, the decoded extension reports {ours}", git_paths.len()));
+                        } else if !git_paths.is_empty() {
+                            rep.probe("resolve-undo-path-count-equals-git");
                         }
                         if t[0].contains("ieot=true") {
                             rep.probe("decoded-with-offset-table");
